@@ -274,12 +274,29 @@ def guarded_wrappers(db, rep, reach):
             if gf is not None:
                 for imp in db.impls:
                     if (imp.get("trait") or "").endswith("visitor::Visitor") and imp["self"].startswith(gf.id.split("::{")[0]):
-                        names = {x.split("::")[-1] for x in imp["items"]}
-                        if {"visit_assign", "visit_update"} <= names:
-                            vis_ok = True
+                        names = {x.split("::")[-1]: x for x in imp["items"]}
+                        if {"visit_assign", "visit_update"} <= set(names):
+                            # each override breaks unconditionally: every value it can return is ControlFlow::Break (an
+                            # override returning Continue does not descend, so a nested `x = ..` / `x++` would be missed)
+                            always = True
+                            for m in ("visit_assign", "visit_update"):
+                                h = db.fns.get(names[m])
+                                if h is None:
+                                    always = False
+                                    continue
+                                for bb in h.reachable():
+                                    for st in h.blocks[bb]["s"]:
+                                        if st["p"] == [0] and not (st["r"].get("k") == "agg" and st["r"].get("variant") == "Break"):
+                                            always = False
+                                    tt = h.blocks[bb]["t"]
+                                    if tt["t"] == "call" and tt.get("dest") == [0]:
+                                        always = False
+                            vis_ok = always
             rep.ob("R4", f"{name}:guard-finds-assignments", vis_ok,
-                   f"the guard {guard_ok[0]} used by {name} does not visit both Assign and Update expressions: an operand that "
-                   f"aliases a local could stay live across `x = ..` / `x++`", loc=f.span)
+                   f"the guard {guard_ok[0]} used by {name} does not answer `true` for every Assign and every Update expression "
+                   f"(both visitor methods must be overridden and return Break unconditionally; an override that returns Continue "
+                   f"does not descend): an operand that aliases a local could stay live across a nested `x = ..` / `x++`",
+                   loc=f.span)
             # (W2) every direct call of the callback gets a fresh temporary
             fresh_ok = True
             for bb, tt in f.calls():
@@ -578,6 +595,70 @@ def r6(db, rep):
     rep.floor("R6", "ClassElement variants that can hold a direct eval", nv, 6)
 
 
+SCOPE_VISITORS = {"collector": "BindingCollectorVisitor", "escape": "BindingEscapeAnalyzer", "index": "ScopeIndexVisitor"}
+# statements with exactly one, unconditional scope of their own (the for-loops have several optional scopes and are not compared)
+SINGLE_SCOPE_NODES = ["visit_block_mut", "visit_catch_mut", "visit_switch_mut", "visit_with_mut"]
+
+
+def _pre_scope_children(f, kind):
+    """(fields of the node visited before the node's scope is entered, whether a scope-entry event exists)"""
+    entries = []
+    visits = []
+    for b, t in f.calls():
+        c = cn(t)
+        if kind in ("collector", "escape") and c.endswith("mem::swap"):
+            entries.append(b)
+        if kind == "index" and c.endswith("Scope::set_index"):
+            entries.append(b)
+        m = (callee(t) or "").split("::")[-1]
+        if m.startswith("visit_") and len(t["args"]) >= 2:
+            l = op_local(t["args"][1])
+            fl = set()
+            for r in (roots(f, l) if l is not None else []):
+                if r[0] == "place":
+                    fl |= {x.split(".")[-1] for x in place_fields(r[1]) if not x.split(".")[-1].isdigit()}
+            if fl:
+                visits.append((b, fl))
+    pre = set()
+    after_entry = set()
+    for e in entries:
+        after_entry |= f.reach_from(f.succs(e))
+    for b, fl in visits:
+        if b not in after_entry:          # the scope cannot have been entered yet on any path
+            pre |= fl
+    return pre, bool(entries)
+
+
+def r7(db, rep):
+    rep.rule("R7", "the three scope passes agree on which children of a scope-bearing statement lie outside its scope: for "
+                   "block / catch / switch / with, the node fields visited before the node's scope is "
+                   "entered (collector and escape analyzer: the swap of self.scope; index visitor: Scope::set_index) are the same "
+                   "in BindingCollectorVisitor, BindingEscapeAnalyzer and ScopeIndexVisitor — otherwise scope indices (the "
+                   "static environment depth in every BindingLocator) disagree with the chain the compiler builds")
+    meths = {}
+    for f in db.fns.values():
+        if f.krate != "boa_ast" or "{closure" in f.id:
+            continue
+        for k, v in SCOPE_VISITORS.items():
+            if v in f.id and f.name in SINGLE_SCOPE_NODES:
+                meths.setdefault(f.name, {})[k] = f
+    n = 0
+    for m in SINGLE_SCOPE_NODES:
+        d = meths.get(m, {})
+        if not rep.anchor("R7", f"{m} overridden by the three scope visitors", len(d) == 3):
+            continue
+        res = {k: _pre_scope_children(f, k) for k, f in d.items()}
+        n += 1
+        ref = res["collector"][0]
+        for k in ("escape", "index"):
+            rep.ob("R7", f"{m}:{k}-agrees-with-collector", res[k][0] == ref and res[k][1] == res["collector"][1],
+                   f"{SCOPE_VISITORS[k]}::{m} treats {sorted(res[k][0]) or 'no child'} as lying outside the node's scope, "
+                   f"BindingCollectorVisitor treats {sorted(ref) or 'no child'} so: functions and blocks inside the differing "
+                   f"child get a scope index that is off by one (a locator then points past the environment chain: panic or "
+                   f"wrong binding)", loc=d[k].span)
+    rep.floor("R7", "single-scope statement nodes compared", n, 4)
+
+
 def run(db, rep, tier):
     r1(db, rep)
     r2(db, rep)
@@ -585,6 +666,7 @@ def run(db, rep, tier):
     r4(db, rep)
     r5(db, rep)
     r6(db, rep)
+    r7(db, rep)
     rep.assumptions += [
         "BytecodeEmitter::emit_* functions do not compile expressions (checked through the bytecompiler call graph)",
     ]
